@@ -157,7 +157,9 @@ other("C05", "glue contracts on the nine <step>_check_conf callbacks (the step's
       "num_scales and scale_factor >= 2, marge >= 0); band parameter: check_band_pipeline proved for every list of image band "
       "names and every form of the parameter (none / one name / dictionary / list) to refuse exactly when the image is multiband "
       "and no band is given, or a given band is not one of the image's; key order: check_pipeline_section takes the order of the "
-      "returned pipeline from the user's configuration (trace contract).  That check_conf applies the schema (json_checker "
+      "returned pipeline from the user's configuration (trace contract); the public check_conf checks the input section first, reads "
+      "each image's metadata from its own entries, checks the pipeline against (left, right) and returns the two checked sections "
+      "(trace contract).  That check_conf applies the schema (json_checker "
       "assumed: And(T, f) accepts x iff isinstance(x, T) and bool(f(x))), method names, idempotence, user dictionary untouched:",
       trusted=["json_checker semantics assumed: And(T, f) accepts x iff isinstance(x, T) and bool(f(x))",
                "strings are uninterpreted tokens with equality only; '' is the only falsy string"])
